@@ -23,6 +23,7 @@ vars == <<cover, meas, mlab, ixs, ixc, ixm, ixn, hist, nupd, nedge>>
 \* initial measure assignments a .cfg cannot spell (halves; NoM = no measure)
 Inits2 == {<<2, 6>>}
 Inits3 == {<<2, NoM, 6>>, <<NoM, 3, 2>>}
+Inits3a == {<<2, NoM, 6>>}
 Inits4 == {<<2, NoM, 6, 3>>}
 Inits5 == {<<2, NoM, 6, 3, -4>>}
 MV3 == {NoM, 4, 5}
